@@ -6,30 +6,42 @@ Open Scope N_scope.
 Section C02_statements.
 Context {D : Type}.
 
-Check (VF.Properties.C02.C02_resolve_sound : forall (self ctx : tree D) ms tail c q ctx' toks', header_end tail ->
+Goal forall (self ctx : tree D) ms tail c q ctx' toks', header_end tail ->
   resolve self ctx (hdr_toks ms ++ tail) = RFound c q ctx' toks' ->
-  In (c, ctx') (desig self ctx ms) /\ q = is_query_tail tail /\ toks' = after_header tail).
-Check (VF.Properties.C02.C02_resolve_undefined : forall (self ctx : tree D) ms tail, header_end tail -> desig self ctx ms = [] ->
-  exists toks', resolve self ctx (hdr_toks ms ++ tail) = RFail UndefinedHeader toks').
-Check (VF.Properties.C02.C02_exec_undefined_invokes_nothing : forall (self ctx : tree D) s e toks', resolve self ctx (x_toks s) = RFail e toks' ->
-  exec self ctx s = XErr (std_error e) (with_toks s toks') /\ x_trace (with_toks s toks') = x_trace s).
-Check (VF.Properties.C02.C02_resolve_complete : forall (self ctx : tree D) ms tail c ctx', wf_tree self -> header_end tail ->
+  In (c, ctx') (desig self ctx ms) /\ q = is_query_tail tail /\ toks' = after_header tail.
+Proof. apply VF.Properties.C02.C02_resolve_sound. Qed.
+Goal forall (self ctx : tree D) ms tail, header_end tail -> desig self ctx ms = [] ->
+  exists toks', resolve self ctx (hdr_toks ms ++ tail) = RFail UndefinedHeader toks'.
+Proof. apply VF.Properties.C02.C02_resolve_undefined. Qed.
+Goal forall (self ctx : tree D) s e toks', resolve self ctx (x_toks s) = RFail e toks' ->
+  exec self ctx s = XErr (std_error e) (with_toks s toks') /\ x_trace (with_toks s toks') = x_trace s.
+Proof. apply VF.Properties.C02.C02_exec_undefined_invokes_nothing. Qed.
+Goal forall (self ctx : tree D) ms tail c ctx', wf_tree self -> header_end tail ->
   In (c, ctx') (desig self ctx ms) ->
-  resolve self ctx (hdr_toks ms ++ tail) = RFound c (is_query_tail tail) ctx' (after_header tail)).
-Check (VF.Properties.C02.C02_designation_unique : forall (self ctx : tree D) ms x y, wf_tree self ->
-  In x (desig self ctx ms) -> In y (desig self ctx ms) -> x = y).
-Check (VF.Properties.C02.C02_default_branch_omitted : forall name dflt sub (ch ctx : tree D) ms x, In ch sub -> is_default ch = true -> is_branch ch = true ->
-  In x (desig ch ctx ms) -> In x (desig (Branch name dflt sub) ctx ms)).
-Check (VF.Properties.C02.C02_default_leaf_omitted : forall name dflt sub n c (ctx : tree D), In (Leaf n true c) sub ->
-  In (c, ctx) (desig (Branch name dflt sub) ctx [])).
-Check (VF.Properties.C02.C02_node_spelled_out : forall name dflt sub (ch ctx : tree D) m ms x, In ch sub -> mnemonic_match (node_name ch) m = true ->
-  In x (desig ch (Branch name dflt sub) ms) -> In x (desig (Branch name dflt sub) ctx (m :: ms))).
-Check (VF.Properties.C02.C02_unit_absolute : forall (root leaf : tree D) s rest, x_toks s = IOk THeaderMnemonicSeparator :: rest ->
-  unit_body root leaf s = UExec (exec root root (with_toks s rest))).
-Check (VF.Properties.C02.C02_unit_common_keeps_context : forall (root leaf : tree D) s m rest leaf' s', x_toks s = IOk (TMnemonic m) :: rest ->
-  starts_with_star m = true -> exec root root s = XOk leaf' s' -> unit_body root leaf s = UExec (XOk leaf s')).
-Check (VF.Properties.C02.C02_unit_relative : forall (root leaf : tree D) s m rest, x_toks s = IOk (TMnemonic m) :: rest ->
-  starts_with_star m = false -> unit_body root leaf s = UExec (exec leaf leaf s)).
-Check (VF.Properties.C02.C02_message_starts_at_root : forall (root : tree D) toks d f,
-  run_tokens root toks d f = unit_loop (S (length toks)) root root (mkX toks d f [])).
+  resolve self ctx (hdr_toks ms ++ tail) = RFound c (is_query_tail tail) ctx' (after_header tail).
+Proof. apply VF.Properties.C02.C02_resolve_complete. Qed.
+Goal forall (self ctx : tree D) ms x y, wf_tree self ->
+  In x (desig self ctx ms) -> In y (desig self ctx ms) -> x = y.
+Proof. apply VF.Properties.C02.C02_designation_unique. Qed.
+Goal forall name dflt sub (ch ctx : tree D) ms x, In ch sub -> is_default ch = true -> is_branch ch = true ->
+  In x (desig ch ctx ms) -> In x (desig (Branch name dflt sub) ctx ms).
+Proof. apply VF.Properties.C02.C02_default_branch_omitted. Qed.
+Goal forall name dflt sub n c (ctx : tree D), In (Leaf n true c) sub ->
+  In (c, ctx) (desig (Branch name dflt sub) ctx []).
+Proof. apply VF.Properties.C02.C02_default_leaf_omitted. Qed.
+Goal forall name dflt sub (ch ctx : tree D) m ms x, In ch sub -> mnemonic_match (node_name ch) m = true ->
+  In x (desig ch (Branch name dflt sub) ms) -> In x (desig (Branch name dflt sub) ctx (m :: ms)).
+Proof. apply VF.Properties.C02.C02_node_spelled_out. Qed.
+Goal forall (root leaf : tree D) s rest, x_toks s = IOk THeaderMnemonicSeparator :: rest ->
+  unit_body root leaf s = UExec (exec root root (with_toks s rest)).
+Proof. apply VF.Properties.C02.C02_unit_absolute. Qed.
+Goal forall (root leaf : tree D) s m rest leaf' s', x_toks s = IOk (TMnemonic m) :: rest ->
+  starts_with_star m = true -> exec root root s = XOk leaf' s' -> unit_body root leaf s = UExec (XOk leaf s').
+Proof. apply VF.Properties.C02.C02_unit_common_keeps_context. Qed.
+Goal forall (root leaf : tree D) s m rest, x_toks s = IOk (TMnemonic m) :: rest ->
+  starts_with_star m = false -> unit_body root leaf s = UExec (exec leaf leaf s).
+Proof. apply VF.Properties.C02.C02_unit_relative. Qed.
+Goal forall (root : tree D) toks d f,
+  run_tokens root toks d f = unit_loop (S (length toks)) root root (mkX toks d f []).
+Proof. apply VF.Properties.C02.C02_message_starts_at_root. Qed.
 End C02_statements.
